@@ -277,10 +277,24 @@ _BIN = {
 }
 
 
+_FOLD = {}
+
+
 def fold(t):
     """constant-fold integer arithmetic over literals; strips the `.0` of checked ops. returns term."""
+    from engine.mir import intern
+    t = intern(t)
     if not isinstance(t, tuple) or not t:
         return t
+    r = _FOLD.get(id(t))
+    if r is not None and r[0] is t:
+        return r[1]
+    out = intern(_fold(t))
+    _FOLD[id(t)] = (t, out)
+    return out
+
+
+def _fold(t):
     if t[0] == "field" and t[2] == "0" and t[1][0] == "bin" and t[1][1].endswith("WithOverflow"):
         return fold(t[1])
     if t[0] == "bin":
